@@ -523,7 +523,9 @@ def run_getitem(case):
         real_err = e
     toks = idx_tokens(idx_p)
     lines = [f"index {len(shape)} " + " ".join(map(str, shape)) + " | " + toks] if toks is not None else []
-    paired = sum(1 for i in idx_p if isinstance(i, list)) >= 2
+    _full = _expand_ellipsis(list(idx_p), len(shape))
+    paired = (_full is not None and isinstance(_full[-1], list) and any(isinstance(i, list) for i in _full[:-1])) or \
+        (_full is None and sum(1 for i in idx_p if isinstance(i, list)) >= 2)
     bc = "" if "mu_build" not in case else (":dense-broadcast" if rep == "dense" else ":lazy-broadcast")
     bnote = "" if not bc else (f" [mean batch {np.array(case['mu_build']).shape[:-1]}, covariance batch "
                                f"{np.array(case['S_build']).shape[:-2]}]")
@@ -552,7 +554,9 @@ def run_getitem(case):
             return res
         res["status"] = "compared"
         where = f"{rep} batch={tuple(shape[:-1])} n={shape[-1]} d{idx_show(idx)}"
-        key_sfx = "advanced-batch-event-pairing" if paired else ("int-event" if case1 else "event")
+        multi = sum(1 for i in idx_p if i is Ellipsis) > 1
+        key_sfx = "multiple-ellipsis" if multi else ("advanced-batch-event-pairing" if paired else
+                                                    ("int-event" if case1 else "event"))
         if rm.shape != mean_ref.shape or not _allclose(rm, mean_ref):
             res["fails"].append((f"getitem:mean:{key_sfx}", f"{where}.mean != mean{idx_show(idx)}: got shape "
                                  f"{rm.shape} want {mean_ref.shape}"))
@@ -649,9 +653,7 @@ def getitem_indices(batch, n, tier, rng, rep):
     # full event set x few prefixes
     prefixes = list(itertools.product(*Bs))
     if tier == "quick":
-        prefixes = [prefixes[0], prefixes[len(prefixes) // 2]] + ([rng.choice(prefixes)] if heavy else [])
-        if not heavy:
-            prefixes = prefixes[:1]
+        prefixes = [rng.choice(prefixes)] if heavy else prefixes[:1]
     for pre in prefixes:
         for e in (E_full if heavy or tier == "thorough" else E_small):
             out.append(tuple(pre) + (e,))
